@@ -1,20 +1,20 @@
-\* part (b), quick tier: every history up to 5 steps, collection and partition in the default database (no injected rejections)
+\* part (b), thorough tier: histories up to 6 steps with swapped / overtaking deliveries, in-flight drops and restarts (default database); sampled, the check replays those with an overtaking operation
 SPECIFICATION Spec
 CHECK_DEADLOCK FALSE
 INVARIANTS PlanOut
 CONSTANTS
-  MaxT = 5
-  MaxOps = 5
+  MaxT = 6
+  MaxOps = 6
   MaxAhead = 2
   DBs = {}
   Colls = {"c1"}
   Parts = {"p1"}
   UseDefault = TRUE
-  Kinds = {"alterDatabase", "createIndex", "alterIndex", "loadPartitions"}
+  Kinds = {"createIndex", "loadPartitions"}
   WithFail = FALSE
   WithInflight = TRUE
   WithSwap = TRUE
-  WithOvertake = FALSE
+  WithOvertake = TRUE
   WithRestart = TRUE
   AlterDbChecked = TRUE
   AlterIdxRecheck = TRUE
